@@ -290,9 +290,15 @@ func runC13IfaceCompare(c *Ctx) {
 				if !ok || (bo.Op != token.EQL && bo.Op != token.NEQ) {
 					continue
 				}
-				_, ix := bo.X.Type().Underlying().(*types.Interface)
-				_, iy := bo.Y.Type().Underlying().(*types.Interface)
+				tx, ix := bo.X.Type().Underlying().(*types.Interface)
+				ty, iy := bo.Y.Type().Underlying().(*types.Interface)
 				if !ix || !iy {
+					continue
+				}
+				// "arbitrary dynamic type" means a method-less interface (interface{} out of reflect.Value.Interface(),
+				// a map key, ...). Two values of a method-bearing interface — `err == errSentinel` — hold the
+				// pointer-shaped implementations of that interface; comparing them is the sentinel idiom
+				if tx.NumMethods() > 0 && ty.NumMethods() > 0 {
 					continue
 				}
 				if isNilConst(bo.X) || isNilConst(bo.Y) {
